@@ -241,6 +241,14 @@ def sumQ : List Rat → Rat
   | x :: xs => x + sumQ xs
 def mean (l : List Rat) : Rat := sumQ l / (l.length : Rat)
 
+/-- `findBestA`: index of the first maximum of `f 0 … f (n-1)` (`std::max_element` with `<`); 0 for `n = 0` -/
+def argmaxV (f : Nat → Rat) : Nat → Nat
+  | 0 => 0
+  | n+1 => if f (argmaxV f n) < f n then n else argmaxV f n
+
+/-- the action `runSimulation` returns: `findBestA` over the root's action values (0 when `horizon = 0`) -/
+def Tree.bestA (t : Tree) (H : Nat) : Nat := if H = 0 then 0 else argmaxV (t.aV []) (t.nA [])
+
 def sumTo (f : Nat → Nat) : Nat → Nat
   | 0 => 0
   | n+1 => sumTo f n + f n
@@ -296,9 +304,6 @@ def RTree.updBK (t : RTree) (p : Path) (s : Nat) : RTree :=
            km := upd t.km p ((tb' ms : Rat) / ((t.nN p + 1 : Nat) : Rat)) }
 
 /-- first maximum of the action values (`std::max_element` with `<`) -/
-def argmaxV (f : Nat → Rat) (n : Nat) : Nat :=
-  (List.range n).foldl (fun best a => if f best < f a then a else best) 0
-
 def RTree.alloc (t : RTree) (p : Path) (n : Nat) : Option RTree :=
   if t.nA p = n then some t else if t.nA p = 0 then some { t with nA := upd t.nA p n } else none
 
